@@ -91,13 +91,18 @@ Definition litv_text (l : litv) : list N :=
   | LNull 0 => [110; 117; 108; 108] | LNull 1 => [78; 117; 108; 108] | LNull _ => [78; 85; 76; 76]
   end.
 Inductive bq := BE (isteps : list rstep) | BN (isteps : list rstep) | BC (isteps : list rstep) (o : cmpop) (lit : list N)
-              | BL (isteps : list rstep) (ne : bool) (l : litv).
+              | BL (isteps : list rstep) (ne : bool) (l : litv)
+              | BRE (j : list rstep) | BRN (j : list rstep)            (* existence of a `$`-rooted path, and its negation *)
+              | BCR (isteps : list rstep) (o : cmpop) (j : list rstep).  (* @steps OP $steps, OP an ordering operator *)
 Definition bq_text (b : bq) : list N :=
   match b with
   | BE i => 64 :: render_steps i
   | BN i => 33 :: 64 :: render_steps i
   | BC i o lit => 64 :: render_steps i ++ op_text o ++ lit
   | BL i ne l => 64 :: render_steps i ++ (if ne then [33; 61] else [61; 61]) ++ litv_text l
+  | BRE j => 36 :: render_steps j
+  | BRN j => 33 :: 36 :: render_steps j
+  | BCR i o j => 64 :: render_steps i ++ op_text o ++ 36 :: render_steps j
   end.
 Definition and_text (c : list bq) : list N :=
   match c with [] => [] | b :: bs => bq_text b ++ flat_map (fun x => [38; 38] ++ bq_text x) bs end.
